@@ -371,7 +371,13 @@ func unitC16(x *ctx) {
 		}
 		c16One(x, c)
 	}
-	section := func(p string) string { return strings.Join(strings.Split(p, "/")[:3], "/") }
+	section := func(p string) string {
+		parts := strings.Split(p, "/")
+		if len(parts) > 3 {
+			parts = parts[:3]
+		}
+		return strings.Join(parts, "/")
+	}
 	switch *common_Unit() {
 	case "c16-single": // one key varied at a time
 		do(fmtCase{})
